@@ -293,10 +293,20 @@ func runC12(c *vk.Ctx) {
 		cs := c12Case(c.Seed, key)
 		planned++
 		c.Begin(key)
-		tmp, err := os.MkdirTemp("", "c12-")
+		// every second pair keeps the store on another file system than the process' temporary directory
+		// (a deployment where TMPDIR is a tmpfs and the store is on disk, or the other way round): a save that
+		// stages its data anywhere but next to the record cannot finish with an atomic rename there
+		base := ""
+		if i%2 == 1 {
+			base = otherFilesystemDir()
+		}
+		tmp, err := os.MkdirTemp(base, "c12-")
 		if err != nil {
 			c.Inconclusive(err.Error())
 			return
+		}
+		if base != "" {
+			c.Count("pairs_with_store_on_other_filesystem_than_TMPDIR", 1)
 		}
 		func() {
 			defer os.RemoveAll(tmp)
@@ -502,11 +512,13 @@ func runC12(c *vk.Ctx) {
 						target := filepath.Join(dj, rel)
 						if _, err := os.Stat(target); err != nil {
 							// the file was created by the killed child under a run-specific (temporary) name:
-							// it is the one file of the crash directory that the prepared directory does not have
+							// it is the one file of the crash directory that neither the prepared nor the completed directory has
 							var fresh []string
 							es, _ := os.ReadDir(dj)
 							for _, e := range es {
-								if _, err := os.Stat(filepath.Join(d0, e.Name())); err != nil {
+								_, err0 := os.Stat(filepath.Join(d0, e.Name()))
+								_, errT := os.Stat(filepath.Join(dt, e.Name()))
+								if err0 != nil && errT != nil { // neither prepared nor left behind by a completed save
 									fresh = append(fresh, e.Name())
 								}
 							}
@@ -534,6 +546,26 @@ func runC12(c *vk.Ctx) {
 			verify(dt, "after the save completed")
 		}()
 	}
+}
+
+// otherFilesystemDir names a writable directory on a different device than os.TempDir(), or "" if there is none.
+func otherFilesystemDir() string {
+	var a, b syscall.Stat_t
+	if syscall.Stat(os.TempDir(), &a) != nil {
+		return ""
+	}
+	for _, d := range []string{"/dev/shm", "/run/shm", "/var/tmp"} {
+		if syscall.Stat(d, &b) != nil || a.Dev == b.Dev {
+			continue
+		}
+		t, err := os.MkdirTemp(d, "c12probe-")
+		if err != nil {
+			continue
+		}
+		os.Remove(t)
+		return d
+	}
+	return ""
 }
 
 func crashClass(what string) string {
